@@ -4,6 +4,7 @@
 # Appends the result to /verif/seeded/<ID>/verified.txt. Scratch worktree is removed afterwards.
 id=$1; S=/verif/seeded/$id; W=/tmp/sv-$id
 base=$(python3 -c "import json;print(json.load(open('$S/meta.json'))['base_commit'])")
+git -C /repo cat-file -e $base 2>/dev/null || base=HEAD
 rm -rf $W; git -C /repo worktree prune; git -C /repo worktree add --detach $W $base >/dev/null 2>&1 || { echo "worktree failed"; exit 2; }
 cd $W
 demo=$(ls $S/demo.c* | head -1)
